@@ -6,6 +6,7 @@
 //   - whatever is reported must be an unspent output (value >= the minimum in force) whose script is the address's own
 //     OutScript()  ("no address is shown outputs paying to another script");
 //   - when that script is one of the five indexed forms, the report must be exactly the projection.
+//
 // The queries share their program / hash with addresses of the pool (which own outputs), so that a lookup in the wrong
 // sub-index finds something. The Lean model answers the same query (`getallq`, Model.BalancesAddr) and must agree, and
 // its OutScript (`qkey`) must equal BtcAddr.OutScript().
